@@ -8,7 +8,7 @@ from cgv.symgraph import TS
 META = {
     "level": "model_checking",
     "engine": "E2 lazy-fork symbolic execution of the real Circuit.remove_unloaded over a symbolic acyclic circuit (presence, type, output flag and every forward edge are z3 variables); per path z3 proves removed set = {dead and deletable}, survivors untouched, returned list = removed set, second call returns nothing",
-    "hashseeds": {"quick": [0], "thorough": [0, 1]},
+    "hashseeds": {"quick": [0], "thorough": [0]},
     "shards": {"quick": 16, "thorough": 8},
     "exhaustive_within_bound": True,
     "bounds": {
